@@ -236,6 +236,11 @@ func coreOf(t tabular.Table) *tabular.ATable {
 
 func (w *World) probe(name string) { w.Probes[name]++ }
 
+// quietCallback does nothing; it only occupies a slot of a callback list.
+type quietCallback struct{}
+
+func (quietCallback) UpdateProperties(tabular.PropertyOwner) error { return nil }
+
 type tmplKey struct{ n int }
 
 var tmplKeys = []interface{}{tmplKey{1}, tmplKey{2}, tmplKey{3}}
@@ -253,6 +258,11 @@ func NewTemplateCell() *tabular.Cell {
 	c.SetProperty(tmplKeys[1], nil)
 	c.SetProperty(tmplKeys[1], 201)
 	c.SetProperty(tmplKeys[0], 202)
+	// ... and that already carries nine (silent) render-time callbacks
+	reg := tabular.New()
+	for i := 0; i < 9; i++ {
+		reg.RegisterPropertyCallback(&c, tabular.CB_AT_RENDER, tabular.CB_ON_ITSELF, quietCallback{})
+	}
 	return &c
 }
 
@@ -497,6 +507,8 @@ func (w *World) Do(st *Step) bool {
 		}
 		if p := w.addrPtr(mc); p != nil && st.B != 0 {
 			p.SetProperty(tmplKeys[pick(len(tmplKeys), st.B)], st.B) // re-set a key the template came with
+			// and one more callback on this table's own copy of the cell
+			w.Tab.RegisterPropertyCallback(p, tabular.CB_AT_RENDER, tabular.CB_ON_ITSELF, quietCallback{})
 		}
 		w.probe("template_cell_added_by_value")
 	case "attachOther":
